@@ -973,7 +973,10 @@ func (a *Authenticator) validateTokenAndDeriveKeys(authData *TokenAuthData, nego
 		return fmt.Errorf("token validation failed: %w", err)
 	}
 
-	// Extract subject from claims
+	// Extract subject from claims. The identity comes from the signed token only:
+	// forget the ID the client announced in step 1, so that a token without a
+	// subject is rejected below instead of authenticating the announced ID.
+	authData.ClientID = ""
 	if sub, ok := claims["sub"]; ok {
 		if subStr, ok := sub.(string); ok {
 			authData.ClientID = subStr
